@@ -1,7 +1,8 @@
+from .sib_helper import *
 import pytest
 
 @pytest.fixture
-def tp1_deep():
+def ws_sibling_fx():
     """DOC9"""
     return 9
 
